@@ -162,7 +162,8 @@ def ref_recip(sp, axes, shifts, hc):
 
 def run_ft(ctx):
     rng = ctx.rng('ft')
-    shapes = [(4,), (5,), (6,), (7,), (2,), (4, 5), (5, 4), (3, 4, 5)]
+    # (axes of equal length included: anything keyed on the axis length alone must not mix up per-axis options)
+    shapes = [(4,), (5,), (6,), (7,), (2,), (4, 5), (5, 4), (4, 4), (5, 5), (3, 4, 5), (4, 3, 4)]
     idx = 0
     for shape in shapes:
         nd = len(shape)
@@ -316,13 +317,24 @@ def run_planning(ctx):
             xa = np.asarray(x).copy()
             for opname, mk in (('FourierTransform', lambda impl: T.FourierTransform(sp, impl=impl, halfcomplex=False)),
                                ('FourierTransform/hc', lambda impl: T.FourierTransform(sp, impl=impl)),
-                               ('DiscreteFourierTransform', lambda impl: T.DiscreteFourierTransform(sp, impl=impl, halfcomplex=False))):
+                               ('FourierTransform/sign+', lambda impl: T.FourierTransform(sp, impl=impl, halfcomplex=False, sign='+')),
+                               ('DiscreteFourierTransform', lambda impl: T.DiscreteFourierTransform(sp, impl=impl, halfcomplex=False)),
+                               ('DiscreteFourierTransform/sign+', lambda impl: T.DiscreteFourierTransform(sp, impl=impl, halfcomplex=False, sign='+')),
+                               ('DiscreteFourierTransformInverse/sign+', lambda impl: T.DiscreteFourierTransform(sp, impl=impl, halfcomplex=False, sign='+').inverse),
+                               ('DiscreteFourierTransformInverse', lambda impl: T.DiscreteFourierTransform(sp, impl=impl, halfcomplex=False).inverse)):
                 for how in ('call-kwarg', 'init_fftw_plan'):
                     ctx.ev('backends-agree')
                     ctx.case('planning;%s;%s;%s' % (opname, how, effort), (shape2, dt))
                     cfg = 'pyfftw;planning=%s;%s;%s' % (effort, how, 'real' if dt == 'float64' else 'complex')
                     try:
                         Fn, Fp = mk('numpy'), mk('pyfftw')
+                        x = util.rand_element(Fp.domain, rng)
+                        if 'Inverse' in opname and dt == 'float64':
+                            # the inverse to a real space is only defined on transforms of real data
+                            x = Fn.inverse(util.rand_element(Fn.range, rng))
+                        xa = np.asarray(x).copy()
+                        if '/' in opname:
+                            cfg = cfg + ';' + opname.split('/')[1]
                         ref = np.asarray(Fn(x))
                         if how == 'call-kwarg':
                             got = np.asarray(Fp(x, planning_effort=effort)) if opname.startswith('Fourier') else np.asarray(Fp(x, flags=('FFTW_' + effort.upper(),)))
